@@ -1,8 +1,11 @@
 package props
 
 import (
+	"strings"
+
 	"context"
 	"fmt"
+	goat "github.com/avos-io/goat"
 	"google.golang.org/grpc"
 
 	"github.com/avos-io/goat/gen/goatorepo"
@@ -125,7 +128,7 @@ func c12(tier string) []*explore.Scenario {
 		out = append(out, c12SeqT(si, 1, maxLen+2, 0, true))
 		out = append(out, c12SeqT(si, 1, maxLen, 1, true))
 	}
-	out = append(out, c12Interference(1))
+	out = append(out, c12Interference(1), c12MethodNames(), c12MethodGrammar())
 	for _, where := range []string{"fresh-id", "open-stream", "half-closed-stream"} {
 		out = append(out, c12Product(where, 1))
 	}
@@ -549,6 +552,102 @@ func c12Product(where string, n int) *explore.Scenario {
 			vsched.Quiesce()
 			if !d.ServeDone && where != "half-closed-stream" {
 				vsched.Fail(fam+"|serve-hang", "after%s (%s): Serve did not return when the transport closed; threads: %s", seq, where, threadList())
+			}
+		},
+	}
+}
+
+// c12MethodGrammar: every method string of length <= 6 over {'/', 'a', '.'}
+// (1093 strings) and a list of odd ones through the real parser: it never
+// panics, and it accepts exactly the strings that contain a slash after an
+// optional leading one, splitting at the last slash.
+func c12MethodGrammar() *explore.Scenario {
+	fam := "C12/hostile"
+	return &explore.Scenario{
+		Name: "C12/method-grammar", Family: fam, Prop: "C12", Once: true,
+		Run: func() {
+			var all []string
+			var gen func(p string, n int)
+			gen = func(p string, n int) {
+				all = append(all, p)
+				if n == 0 {
+					return
+				}
+				for _, c := range "/a." {
+					gen(p+string(c), n-1)
+				}
+			}
+			gen("", 6)
+			all = append(all, "/verif.Svc/Unary", "verif.Svc/Unary", "/Unary", "/", "//", "///", "/a/", "a/", "/a//b", " /a/b", "/a/b ", "/\x00/b", "/a/b/c/d", strings.Repeat("/", 300), "/"+strings.Repeat("s", 70000)+"/m")
+			for _, m := range all {
+				svc, meth, err := goat.VerifParseRawMethod(m)
+				t := strings.TrimPrefix(m, "/")
+				pos := strings.LastIndex(t, "/")
+				switch {
+				case pos < 0 && err == nil:
+					vsched.Fail(fam+"|method-grammar", "method %q has no service/method separator but was parsed as (%q, %q)", m, svc, meth)
+				case pos >= 0 && (err != nil || svc != t[:pos] || meth != t[pos+1:]):
+					vsched.Fail(fam+"|method-grammar", "method %q parsed as (%q, %q, %v), want (%q, %q)", m, svc, meth, err, t[:pos], t[pos+1:])
+				}
+			}
+			vsched.Count("inputs", int64(len(all)))
+			vsched.Obs("method strings=%d", len(all))
+		},
+	}
+}
+
+// c12MethodNames: requests (unary shaped and stream-open shaped) whose method
+// name is odd - only a leading slash, empty, only slashes, trailing slash, no
+// service, nested - : no crash, no handler, valid requests afterwards are served.
+func c12MethodNames() *explore.Scenario {
+	fam := "C12/hostile"
+	return &explore.Scenario{
+		Name: "C12/method-names", Family: fam, Prop: "C12", Bound: 0,
+		Run: func() {
+			w := env.NewWorld()
+			d := env.NewDirect(w, env.DirectOpts{Pipe: env.PipeOpts{Cap: 256}, NoClient: true})
+			vsched.GoNamed("peer-reader", func() {
+				for {
+					if _, err := d.Pipe.A.Read(context.Background()); err != nil {
+						return
+					}
+				}
+			})
+			vsched.Settle()
+			names := []string{"/Unary", "Unary", "/", "", "//", "///", "/verif.Svc/", "verif.Svc/", "/verif.Svc", "//Unary", "/verif.Svc//Unary", "/a/verif.Svc/Unary", "/verif.Svc/Unary/", " /verif.Svc/Unary", "/VERIF.SVC/UNARY", "/verif.Svc/unary"}
+			m := names[vsched.Choose(len(names))]
+			shape := vsched.Choose(3)
+			var rpc *env.Rpc
+			switch shape {
+			case 0:
+				rpc = env.ReqUnary(1, "x", "x")
+			case 1:
+				rpc = env.ReqOpen(1, env.MBidi, "x")
+			default:
+				rpc = env.ReqReset(1, env.MBidi)
+			}
+			rpc.Header.Method = m
+			d.Pipe.A.Inject(rpc)
+			vsched.Quiesce()
+			if d.ServeDone {
+				vsched.Fail(fam+"|serve-ended", "Serve returned (%v) after a request (shape %d) for method %q", d.ServeErr, shape, m)
+				return
+			}
+			if len(w.Stray) > 0 {
+				vsched.Fail(fam+"|handler-for-malformed", "a handler ran (%v) for a request (shape %d) whose method is %q", w.Stray, shape, m)
+			}
+			pu := w.Rec("probe-u", "Unary")
+			d.Pipe.A.Inject(env.ReqUnary(100, "probe-u", "x"))
+			vsched.Quiesce()
+			vsched.Obs("method %q shape %d: probe=%d", m, shape, pu.HStarts)
+			if pu.HStarts != 1 || !hasUnaryReply(d, 100, "R:probe-u|x") {
+				vsched.Fail(fam+"|probe-unary", "after a request for method %q: a valid unary request was not served", m)
+			}
+			d.Pipe.A.Break()
+			d.Pipe.B.Break()
+			vsched.Quiesce()
+			if !d.ServeDone {
+				vsched.Fail(fam+"|serve-hang", "after a request for method %q: Serve did not return when the transport closed", m)
 			}
 		},
 	}
